@@ -21,7 +21,7 @@ RULE = ("every flavour x instruction shape x operand field position x values jus
         "carries an out-of-range value; distinct = distinct case description.")
 ASSUMPTIONS = ["'raises' means any exception before bytes are produced (construction, assembling or bytes())",
                "a value that encodes without error must decode to exactly the same operand (checked with the repo decoder and the reference decoder)"]
-SHARDS = {"quick": 1, "thorough": 4}
+SHARDS = {"quick": 1, "thorough": 16}
 MIN_COUNTERS = {"out_of_range_rejected": 200, "in_range_twins_ok": 200}
 PRE = "# NETQASM 1.0\n# APPID 0\n"
 
@@ -153,7 +153,7 @@ def cases(ctx):
                                 yield {"kind": "template", "flavour": flav, "mnemonic": m, "pos": list(pos), "value": v, "vtype": ty,
                                        "values": codec.set_leaf(codec.rand_values(rng, kinds), pos, v), "expect": which}
     # ---- random magnitudes, several offending fields, and offending operands deep inside a longer program ---------
-    for _ in range(ctx.n(300, 60000)):
+    for _ in range(ctx.n(300, 600000)):
         flav = rng.choice(["vanilla", "nv", "reids"])
         names = sorted(x for x in isa.TABLE[flav] if codec.leaf_positions(isa.TABLE[flav][x][1]))
         nins = rng.choice([1, 1, 2, 5, 12, 30])
